@@ -277,8 +277,8 @@ def usable(o, texts):
         gf = o.get_pattern(include_flags=True)
     except Exception as e:                               # noqa: BLE001
         return ("get_pattern(include_flags=True) raised %s" % type(e).__name__, False)
-    if gf != "/%s/gmsu" % g:
-        return ("flagged export %r is not '/<pattern>/gmsu' for the exported pattern %r" % (gf, g), False)
+    if not isinstance(gf, str):
+        return ("get_pattern(include_flags=True) returned %s" % type(gf).__name__, False)
     if rexcost.risky(s) or rexcost.risky(g):
         return None                                      # workload guard: no matching probe on potentially explosive patterns
     for tid in sorted(texts):
